@@ -135,3 +135,10 @@ fn c10_layout_canary() {
     let layout = MatrixLayout::<AsciiChar>::new(h, n);
     assert!(layout.layout.size() <= 4096);
 }
+
+/// stub for `MatrixSlab::alloc` used by the "fallback" obligations: the slab refuses every request
+/// (refusing is always allowed by alloc's contract; the real refusal condition is pinned by
+/// `c10-alloc-guards`), so the dispatchers must take their greedy fallback at small sizes too.
+pub fn alloc_refuses<'a, C: Char>(_slab: &'a mut MatrixSlab, _haystack: &[C], _needle_len: usize) -> Option<MatcherDataView<'a, C>> {
+    None
+}
